@@ -11,6 +11,7 @@ from __future__ import annotations
 
 import json
 import multiprocessing as mp
+from .common import worker_pool
 import os
 
 from . import world as W
@@ -154,7 +155,7 @@ def explore(consts, init_state, calls_at, model_states, *, caching=False, procs=
     nrec = nprobed = nprobes = pending_probes = 0
     offmodel = 0
     level = 0
-    with ctx.Pool(procs, initializer=_init_worker, initargs=(consts, init_state, caching, vertex_cls, cache_mode, impl)) as pool:
+    with worker_pool(ctx, procs, initializer=_init_worker, initargs=(consts, init_state, caching, vertex_cls, cache_mode, impl)) as pool:
         while frontier:
             tasks = []
             for ks in frontier:
